@@ -2,6 +2,7 @@
 package main
 
 import (
+	"context"
 	"io"
 	"testing"
 
@@ -11,14 +12,14 @@ import (
 )
 
 func init() {
-	verifsim.CLIRunner = func(cli command.Cli, argv []string, stdout io.Writer) error {
+	verifsim.CLIRunner = func(ctx context.Context, cli command.Cli, argv []string, stdout io.Writer) error {
 		cmd := rootCmd(cli)
 		cmd.SetArgs(argv)
 		cmd.SetOut(stdout)
 		cmd.SetErr(io.Discard)
 		cmd.SilenceUsage = true
 		cmd.SilenceErrors = true
-		return cmd.Execute()
+		return cmd.ExecuteContext(ctx)
 	}
 }
 
